@@ -58,10 +58,15 @@ pub struct StreamState {
     pub close_error: Option<AnyTlsError>,
     pub fx: Ghost<Seq<SEffect>>,
 }
+pub struct ReaderCellS { pub _p: () }
 pub struct Stream {
     pub id: u32,
     pub writer_tx: mpsc::UnboundedSender<(u32, Bytes)>,
+    pub reader: Arc<ReaderCellS>,
 }
+// tokio::io::ReadBuf as poll_read's entry sees it
+pub struct ReadBuf<'a> { pub _p: std::marker::PhantomData<&'a ()> }
+impl<'a> ReadBuf<'a> { #[verifier::external_body] pub fn remaining(&self) -> (r: usize) { unimplemented!() } }
 // how many outcomes the opener has been sent, and the first one
 pub open spec fn n_synack(fx: Seq<SEffect>) -> nat decreases fx.len()
 { if fx.len() == 0 { 0 } else { n_synack(fx.drop_last()) + (if fx.last() is SynackSent { 1nat } else { 0nat }) } }
@@ -69,6 +74,8 @@ pub broadcast proof fn lemma_n_synack_push(fx: Seq<SEffect>, e: SEffect)
     ensures #[trigger] n_synack(fx.push(e)) == n_synack(fx) + (if e is SynackSent { 1nat } else { 0nat })
 { assert(fx.push(e).drop_last() =~= fx); assert(fx.push(e).last() == e); }
 
+// tokio::io::AsyncRead: only the entry block of poll_read is under contract (the rest polls a boxed future)
+pub trait AsyncRead { fn vx_block_poll_read_entry(&self, buf: &mut ReadBuf<'_>, ss: &mut StreamState) -> Poll<io::Result<()>>; }
 // tokio::io::AsyncWrite with the signatures rule R/H produce (Pin<&mut Self> -> &mut self, hoisted state appended)
 pub trait AsyncWrite {
     fn poll_write(&mut self, _cx: &mut Context<'_>, buf: &[u8], ss: &mut StreamState) -> Poll<io::Result<usize>>;
